@@ -112,3 +112,30 @@ Proof.
   - intros H; injection H; intros; lra.
   - intros H; injection H; intros; lra.
 Qed.
+
+(* PUBLIC to_axes_angles (after the repair): the sign of the unit quaternion is
+   chosen first (Quat.qpos), so the round trip holds on BOTH hemispheres and
+   the angle is always in [0, pi] *)
+Lemma ax_roundtrip_public a b c d :
+  a * a + b * b + c * c + d * d = 1 ->
+  1 / 1000000000 <= Rabs a -> 1 / 100000000 <= 2 * acos (Rabs a) ->
+  ax2qu ROps (qu2ax ROps (qpos ROps (a, b, c, d))) = (a, b, c, d) \/
+  ax2qu ROps (qu2ax ROps (qpos ROps (a, b, c, d))) = qneg ROps (a, b, c, d).
+Proof.
+  intros Hu Ha Hw. unfold qpos. rsimpl.
+  destruct (Rltb a 0) eqn:E.
+  - apply Rltb_true in E. right. rewrite Rabs_left in Ha, Hw by assumption.
+    unfold qneg; rsimpl. apply ax2qu_qu2ax_pos; try assumption. nra.
+  - apply Rltb_false in E. left. rewrite Rabs_right in Ha, Hw by lra.
+    apply ax2qu_qu2ax_pos; assumption.
+Qed.
+
+Lemma ax_angle_range_public a b c d :
+  a * a + b * b + c * c + d * d = 1 ->
+  let '(a', _, _, _) := qpos ROps (a, b, c, d) in 0 <= 2 * acos a' <= PI.
+Proof.
+  intros Hu. pose proof (unit_bounds a b c d Hu) as Hb. unfold qpos. rsimpl.
+  destruct (Rltb a 0) eqn:E.
+  - apply Rltb_true in E. unfold qneg; rsimpl. apply qu2ax_angle_range_pos. lra.
+  - apply Rltb_false in E. apply qu2ax_angle_range_pos. lra.
+Qed.
